@@ -172,6 +172,10 @@ Definition spec_check (c : case) : option bool :=
                (* raw / p-distance: settled exactly by the correspondence; the internal-gap mode is also
                   judged against its column-wise definition *)
                (if Z.eqb (k_gapmode c) 1 then exact_entry_ok c f (spec_internal c s1 s2) else true)
+             else if qpos (pq_total pq) && Qeq_bool (pq_p pq) 0 && Qeq_bool (pq_P pq) 0 && Qeq_bool (pq_Q pq) 0 then
+               (* no counted difference: distance 0, whatever the base frequencies (an absent base makes the
+                  constants of F81 / F84 / TN93 vanish: 0/0 must not surface as NaN) *)
+               Z.eqb (fl_class f) 0 && Qle_bool (Qabs (fl_q f)) (1 # 1000000000)
              else if estimator_borderline c pi pq && negb (exact_saturation c pi pq) then true
              else if estimator_clear c pi pq then
                (* finite, never below the observed proportion, 0 when nothing differs *)
